@@ -91,6 +91,7 @@ impl Cell_source_talkback {
     pub fn alloc(h: &mut Heap, v: Option<Tb>) -> (r: Cell_source_talkback) ensures final(h).source_talkback == v, final(h).alloc_source_talkback, final(h).sinks == old(h).sinks, final(h).alloc_sinks == old(h).alloc_sinks { h.source_talkback = v; h.alloc_source_talkback = true; Cell_source_talkback {} }
     pub fn load(&self, h: &Heap) -> (r: Option<Tb>) ensures r == h.source_talkback { h.source_talkback }
     pub fn load_full(&self, h: &Heap) -> (r: Option<Tb>) ensures r == h.source_talkback { h.source_talkback }
+    pub fn swap(&self, h: &mut Heap, v: Option<Tb>) -> (r: Option<Tb>) ensures r == old(h).source_talkback, final(h).source_talkback == v, final(h).alloc_source_talkback == old(h).alloc_source_talkback, final(h).sinks == old(h).sinks, final(h).alloc_sinks == old(h).alloc_sinks { let r = h.source_talkback; h.source_talkback = v; r }
     pub fn store(&self, h: &mut Heap, v: Option<Tb>) ensures final(h).source_talkback == v, final(h).alloc_source_talkback == old(h).alloc_source_talkback, final(h).sinks == old(h).sinks, final(h).alloc_sinks == old(h).alloc_sinks { h.source_talkback = v; }
 }
 
